@@ -5,11 +5,39 @@ BUDGET = {'quick': 840, 'thorough': 3600}
 H = 'harness/e2/c02_hist.c'
 STUBS = ['stdio / mmap: in-memory model file system', 'cpuid: no SIMD features (scalar dispatch)', 'file content produced in the same run by the real writer (concrete)']
 TYPES = {0: 'INT32 OPTIONAL', 1: 'INT64 REQUIRED', 2: 'BYTE_ARRAY OPTIONAL', 3: 'BOOLEAN OPTIONAL', 4: 'DOUBLE OPTIONAL'}
-MODES = {0: 'buffer', 1: 'stdio', 2: 'mmap'}
+MODES = {0: 'buffer', 1: 'stdio', 2: 'mmap', 4: 'buffer|stdio|mmap (one per path)'}
+TN = ['BOOLEAN', 'INT32', 'INT64', 'FLOAT', 'DOUBLE', 'BYTE_ARRAY', 'FLBA5']
+CODECS = {'unc': 'CARQUET_COMPRESSION_UNCOMPRESSED', 'snappy': 'CARQUET_COMPRESSION_SNAPPY', 'lz4': 'CARQUET_COMPRESSION_LZ4'}
+OUTSIDE = '; outside: symbolic file content, dictionary/delta encoded pages (the writer emits PLAIN only), nested/repeated columns, GZIP/ZSTD (library models), more rows/pages than stated'
 
 
-def obligations(tier):
-    q = tier == 'quick'
+def tname(ct, opt):
+    return '%s-%s' % (TN[ct], 'opt' if opt else 'req')
+
+
+def layout_defs(n, pages, rgs):
+    d = ['-DN=%d' % n]
+    if isinstance(pages, int):
+        d.append('-DBATCH=%d' % pages)
+    else:
+        d.append('-DPAGEPATTERN=' + ','.join(map(str, pages)))
+    if rgs:
+        d.append('-DH_RGS=' + ','.join(map(str, rgs)))
+    return d
+
+
+def layout_txt(n, pages, rgs):
+    return '%d rows, %s, %s' % (n, ('pages of %d rows' % pages) if isinstance(pages, int) else ('pages of %s rows (pattern restarts in every column chunk)' % ','.join(map(str, pages))),
+                                ('row groups of %s rows' % '+'.join(map(str, rgs))) if rgs else 'one row group')
+
+
+def layout_tag(n, pages, rgs):
+    return 'n%d-p%s%s' % (n, pages if isinstance(pages, int) else '.'.join(map(str, pages)), ('-rg' + '.'.join(map(str, rgs))) if rgs else '')
+
+
+def legacy(tier):
+    """the obligations of the first round (thorough list = today's quick tier)"""
+    q = tier == 'legacy-quick'
     o = []
     for ct in ([0, 1, 2] if q else [0, 1, 2, 3, 4]):
         for om in ([0, 1] if q else [0, 1, 2]):
@@ -17,16 +45,85 @@ def obligations(tier):
             o.append(E2('history/%s/%s' % (TYPES[ct].replace(' ', '-'), MODES[om]), H,
                         defines=['-DMODE=1', '-DCOLTYPE=%d' % ct, '-DOPENMODE=%d' % om, '-DN=9', '-DBATCH=3', '-DNOPS=%d' % nops], all_lib=True, timeout=1100 if q else 3000,
                         stubs=STUBS, max_paths=300000, fork_max=16,
-                        bounds='column %s, 9 rows in 3 pages; every history of %d operations from {read_batch(k), skip(k), has_next/remaining, re-create}, k in 0..10 symbolic, followed by a full read; open via %s' % (TYPES[ct], nops, MODES[om])))
+                        bounds='column %s (concrete content), 9 rows in 3 pages; every history of %d operations from {read_batch(k), skip(k), has_next/remaining, re-create}, each k in 0..10 symbolic (independent per operation), followed by a full read; open via %s' % (TYPES[ct], nops, MODES[om]) + OUTSIDE))
     for ct in ([0, 2] if q else [0, 1, 2, 3, 4]):
         for om in ([0, 2] if q else [0, 1, 2]):
             o.append(E2('batch/%s/%s' % (TYPES[ct].replace(' ', '-'), MODES[om]), H,
                         defines=['-DMODE=2', '-DCOLTYPE=%d' % ct, '-DOPENMODE=%d' % om, '-DN=9', '-DBATCH=3'], all_lib=True, timeout=1100, stubs=STUBS, fork_max=16,
-                        bounds='2 columns (%s + INT32 REQUIRED), 9 rows in 3 pages; every batch_size 1..10 (symbolic) x 3 projections (all, by index reversed, by name); open via %s' % (TYPES[ct], MODES[om])))
+                        bounds='2 columns (%s + INT32 REQUIRED, concrete content), 9 rows in 3 pages; every batch_size 1..10 (symbolic) x 3 projections (all, by index reversed, by name); open via %s' % (TYPES[ct], MODES[om]) + OUTSIDE))
     # pages of different sizes (1,2,3,2,1): batch boundaries inside pages, batch size equal to a partly consumed page
     for ct in ([1, 0] if q else [1, 0, 2, 4]):
         for om in (0, 2):
             o.append(E2('batch-uneven-pages/%s/%s' % (TYPES[ct].replace(' ', '-'), MODES[om]), H,
                         defines=['-DMODE=2', '-DCOLTYPE=%d' % ct, '-DOPENMODE=%d' % om, '-DN=9', '-DPAGEPATTERN=1,2,3,2,1'], all_lib=True, timeout=1100, stubs=STUBS, fork_max=16,
-                        bounds='2 columns (%s + INT32 REQUIRED), 9 rows in pages of 1,2,3,2,1 rows; every batch_size 1..10 (symbolic) x 3 projections; open via %s' % (TYPES[ct], MODES[om])))
+                        bounds='2 columns (%s + INT32 REQUIRED, concrete content), 9 rows in pages of 1,2,3,2,1 rows; every batch_size 1..10 (symbolic) x 3 projections; open via %s' % (TYPES[ct], MODES[om]) + OUTSIDE))
     return o
+
+
+def hist(ct, opt, n, pages, rgs, nops, om=4, codec='unc', kmax=None, ops5=False, rw_only=False, timeout=1500):
+    """column-reader history: nops operations; k symbolic in 0..n+1, or (kmax given) a concrete choice 0..kmax per path"""
+    d = ['-DMODE=1', '-DH_CT=%d' % ct, '-DH_OPT=%d' % opt, '-DOPENMODE=%d' % om, '-DNOPS=%d' % nops, '-DCODEC=' + CODECS[codec]] + layout_defs(n, pages, rgs)
+    kinds = '{read_batch(k), skip(k), has_next/remaining, re-create%s}' % (', read_batch(k) without level buffers' if ops5 else '')
+    if ops5: d.append('-DH_OPS5')
+    if rw_only:
+        d.append('-DH_RW_ONLY'); kinds = '{read_batch(k), skip(k)}'
+    if kmax is not None: d.append('-DH_KMAX=%d' % kmax)
+    nm = 'hist%d/%s/%s/%s/%s%s%s%s' % (nops, tname(ct, opt), layout_tag(n, pages, rgs), codec, {0: 'buffer', 1: 'stdio', 2: 'mmap', 4: 'anyio'}[om],
+                                      ('/k0-%d' % kmax) if kmax is not None else '', '/ops5' if ops5 else '', '/rw' if rw_only else '')
+    return E2(nm, H, defines=d, all_lib=True, timeout=timeout, stubs=STUBS, max_paths=400000, fork_max=32,
+              bounds='column %s %s (concrete content) + INT32 REQUIRED id, %s, %s; column reader of a symbolically chosen row group; every history of %d operations from %s, %s, followed by has_next/remaining and a full read of the rest; open via %s'
+                     % (TN[ct], 'OPTIONAL' if opt else 'REQUIRED', layout_txt(n, pages, rgs), codec, nops, kinds,
+                        ('each k in 0..%d (every value, one per path)' % kmax) if kmax is not None else ('each k symbolic in 0..%d, independent per operation' % (n + 1)), MODES[om]) + OUTSIDE)
+
+
+def batch(ct, opt, yt, yopt, n, pages, rgs, om=4, codec='unc', timeout=1500):
+    """batch reader over 3 columns: every batch size x every projection"""
+    d = ['-DMODE=2', '-DH_CT=%d' % ct, '-DH_OPT=%d' % opt, '-DH_NCOLS=3', '-DH_YT=%d' % yt, '-DH_YOPT=%d' % yopt, '-DH_PROJ=1', '-DOPENMODE=%d' % om, '-DCODEC=' + CODECS[codec]] + layout_defs(n, pages, rgs)
+    nm = 'batch3/%s+%s/%s/%s/%s' % (tname(ct, opt), tname(yt, yopt), layout_tag(n, pages, rgs), codec, {0: 'buffer', 1: 'stdio', 2: 'mmap', 4: 'anyio'}[om])
+    return E2(nm, H, defines=d, all_lib=True, timeout=timeout, stubs=STUBS, max_paths=400000, fork_max=32,
+              bounds='3 columns (x %s %s, id INT32 REQUIRED, y %s %s; concrete content), %s, %s; every batch_size 1..%d (symbolic) x 79 projections (all columns; every index list of length 1..3 over the 3 columns incl. repeated and reordered indices; the same lists by name); every batch: same row count in all columns, values, null bitmaps with one polarity across columns; open via %s'
+                     % (TN[ct], 'OPTIONAL' if opt else 'REQUIRED', TN[yt], 'OPTIONAL' if yopt else 'REQUIRED', layout_txt(n, pages, rgs), codec, n + 1, MODES[om]) + OUTSIDE)
+
+
+def deep():
+    o = []
+    ALL = [(ct, opt) for ct in range(7) for opt in (1, 0)]
+    # ---- histories
+    # every type x OPTIONAL/REQUIRED, 2 operations, uneven pages, each I/O mode (one per path)
+    for ct, opt in ALL:
+        o.append(hist(ct, opt, 9, [1, 2, 3, 2, 1], None, 2))
+    # 3 operations incl. reads without level buffers, several row groups (one of them a single row), every type nullable
+    for ct in range(7):
+        o.append(hist(ct, 1, 10, [2, 3], [5, 1, 4], 3, om=(0, 1, 2)[ct % 3], kmax=6, ops5=True))
+    # required columns (zero-copy eligible pages under mmap/buffer): 3 operations, symbolic k
+    for ct in (1, 2, 4, 6, 0, 5):
+        o.append(hist(ct, 0, 9, [4, 1, 4], None, 3, om=2 if ct in (1, 2, 4) else 0))
+    # long histories: 4 operations of all kinds / 5 read-skip operations, concrete k per path
+    for ct, opt, om in ((1, 1, 0), (5, 1, 1), (0, 1, 2), (2, 0, 2), (6, 1, 0), (4, 1, 1)):
+        o.append(hist(ct, opt, 7, [2, 1, 3, 1], None, 4, om=om, kmax=4))
+    for ct, opt, om in ((1, 1, 2), (5, 1, 0), (0, 1, 1), (3, 0, 2)):
+        o.append(hist(ct, opt, 7, [1, 3, 2, 1], None, 5, om=om, kmax=3, rw_only=True, timeout=2400))
+    # compressed pages (decompressed page buffers instead of views)
+    for ct, opt, codec in ((1, 1, 'snappy'), (5, 1, 'lz4'), (2, 0, 'snappy'), (0, 1, 'lz4'), (6, 0, 'snappy'), (4, 1, 'lz4')):
+        o.append(hist(ct, opt, 9, [1, 2, 3, 2, 1], [6, 3], 2, codec=codec))
+    # an empty row group in the middle of the file
+    o.append(hist(1, 1, 8, 3, [4, 0, 4], 2))
+    o.append(hist(5, 0, 8, 3, [4, 0, 4], 2))
+    # ---- batch reader: 3 columns, all projections, all batch sizes
+    for i, (ct, opt) in enumerate(ALL):
+        yt, yopt = [(5, 1), (4, 0), (0, 1), (6, 1), (2, 0), (1, 1), (3, 1)][i % 7]
+        o.append(batch(ct, opt, yt, yopt, 9, [1, 2, 3, 2, 1], None))
+    for i, (ct, opt) in enumerate(ALL[::2] + ALL[1::4]):
+        yt, yopt = [(2, 1), (5, 0), (0, 0), (4, 1)][i % 4]
+        o.append(batch(ct, opt, yt, yopt, 10, [2, 3], [5, 1, 4]))
+    for ct, opt, yt, yopt, codec in ((1, 1, 5, 1, 'snappy'), (2, 0, 0, 1, 'lz4'), (5, 1, 4, 0, 'snappy'), (6, 1, 1, 0, 'lz4'), (0, 0, 3, 1, 'snappy')):
+        o.append(batch(ct, opt, yt, yopt, 9, 3, [6, 3], codec=codec))
+    o.append(batch(1, 1, 5, 1, 8, 3, [4, 0, 4]))
+    o.append(batch(2, 0, 4, 0, 12, [5, 1, 1, 5], None))
+    return o
+
+
+def obligations(tier):
+    if tier == 'quick':
+        return legacy('thorough')
+    return legacy('thorough') + deep()
